@@ -1,11 +1,21 @@
 PROP = {
-    "groups": ["escape"],
+    "groups": ["escape", "codec", "codec-e2e"],
     "rule": "escape/unescape/streaming-reader/writer/table-parser cases: every byte value x both built-in tables, "
             "all splits of a short escaped stream, random well-formed and ill-formed tables with payloads dense in "
             "leader/source/code bytes, random splits and caller buffer sizes; non-trivial = escaping changes the "
-            "length, a chunk ends in the leader byte, a non-empty table is used, or a table is parsed; distinct = distinct input line",
-    "trusted": ["modelled, not verified: JSON decoding and ISO-8859-1 encoding of the announced table (the model starts at the decoded array of strings); zstd in front of the escaper is an arbitrary byte function"],
-    "assumptions": ["payload bytes are < 256", "chunks handed to the streaming reader are non-empty and caller buffers have length >= 1"],
+            "length, a chunk ends in the leader byte, a non-empty table is used, or a table is parsed; distinct = distinct input line. "
+            "codec group (wire around the escaper): isTrzszLetter on all 256 bytes; base64 writer/reader/encodeBytes/decodeString on every length 0..64, "
+            "every split of streams up to 7 bytes, random chunkings of streams up to 64 KiB, malformed streams (bad characters, padding anywhere, "
+            "truncation, CR/LF, non-canonical trailing bits, data after padding); sendDataWriter framing under a changing buffer size (all splits of an "
+            "8-byte stream x 6 size sequences, random streams/sizes, exact-fit writes) read back by pipelineRecvData; pipelineSendData re-splitting; "
+            "line senders; protocol-1 sendData/recvData. codec-e2e group: binary uploads of protected-byte payloads and names through the real client "
+            "and the real trz (escape on/off x compress yes/no/auto x protocol 4/2/1): every byte of the recorded client->server wire is checked "
+            "against the table announced in the server's CFG line",
+    "trusted": ["modelled, not verified: JSON decoding and ISO-8859-1 encoding of the announced table (the model starts at the decoded array of strings); zstd in front of the escaper is an arbitrary byte function",
+                "modelled, not verified: encoding/base64 is transcribed from its observable behaviour (alphabet, padding, non-strict decoding, CR/LF skipping) and tied by the correspondence run; zlib under base64 is an arbitrary function (its outputs are passed to the model as an oracle per case)",
+                "correspondence of the STREAMING base64 decoder on malformed input is restricted to streams without '=' before their last quantum: NewDecoder decodes 4k-aligned blocks independently, so padding in mid-stream is accepted or rejected depending on read boundaries; the whole-stream decoder (DecodeString) is compared on all malformed inputs"],
+    "assumptions": ["payload bytes are < 256", "chunks handed to the streaming reader are non-empty and caller buffers have length >= 1",
+                    "wire-clean claim: message types are words of letters/digits, numbers are non-negative, the client's newline is \"\\n\" (regenerated from newTransfer), the table is one of the two built-in ones"],
 }
 TEXT = {
     "text": "Machine-checked proof over an executable model of escape.go and the escapeReader/escapeWriter of pipeline.go: round trip for every well-formed table, every payload and every destination size; streaming reader correct for every split of the escaped stream and every sequence of caller buffer sizes; no protected byte in any escaped output for clean tables; undefined pair rejected; both built-in tables (regenerated from the source on every run) are well-formed, clean and protect the bytes the property lists. The model is tied to the code by regenerated constants and by differential execution of the extracted model against the real functions.",
